@@ -114,7 +114,7 @@ def check_history(case) -> Outcome:
             got = digest(run())
         except Exception as e:
             try:
-                fresh()
+                digest(fresh())
             except Exception:
                 return  # the same call fails with fresh objects too: not a purity matter
             out.fail("call-fails-only-with-reused-objects", f"{step}: {type(e).__name__}: {str(e)[:200]} (history {case['steps']})", op=step[0])
